@@ -466,9 +466,9 @@ def shards(tier):
                [{'kind': 'gen', 'n': c, 'i': i} for i, c in enumerate(harness.split(1200, 4))] + \
                [{'kind': 'gen-inst', 'n': c, 'i': i} for i, c in enumerate(harness.split(1600, 8))]
     return [{'kind': 'harvest', 'part': i, 'parts': 48, 'stride': 1} for i in range(48)] + \
-           [{'kind': 'mut', 'n': c, 'i': i} for i, c in enumerate(harness.split(40000, 48))] + \
-           [{'kind': 'gen', 'n': c, 'i': i} for i, c in enumerate(harness.split(40000, 16))] + \
-           [{'kind': 'gen-inst', 'n': c, 'i': i} for i, c in enumerate(harness.split(40000, 16))]
+           [{'kind': 'mut', 'n': c, 'i': i} for i, c in enumerate(harness.split(6000, 48))] + \
+           [{'kind': 'gen', 'n': c, 'i': i} for i, c in enumerate(harness.split(20000, 16))] + \
+           [{'kind': 'gen-inst', 'n': c, 'i': i} for i, c in enumerate(harness.split(20000, 16))]
 
 
 def run_shard(desc, seed, tier, H):
